@@ -752,6 +752,23 @@ impl VerifSpec {
     }
 }
 
+/// The real `Parser::parameters` on the text of a format spec (from the ':' on): the parsed
+/// spec, or `None` when the parser reports an error, and the offset of the first byte left over.
+#[cfg(log4rs_verif)]
+#[doc(hidden)]
+pub fn verif_parse_parameters(spec: &str) -> (Option<VerifSpec>, usize) {
+    let (res, rest) = Parser::verif_parameters(spec);
+    (
+        res.ok().map(|p| VerifSpec {
+            fill: p.fill,
+            right: p.align == Alignment::Right,
+            min_width: p.min_width,
+            max_width: p.max_width,
+        }),
+        rest,
+    )
+}
+
 /// Runs the real `Chunk::encode` on a group `{(<texts>):<outer>}` whose content is the given
 /// texts, one literal chunk (hence one write) each; with `inner = Some((spec, k))` the first
 /// `k` texts sit in a nested group `{(..):<spec>}` inside the outer one.
